@@ -35,6 +35,8 @@ type c02Case struct {
 	// StringLast: in a revision-3 binary payload a string packet is only ever the last packet of its request
 	// (exclusion by construction of the recorded parser finding)
 	StringLast bool
+	// CutAt: tail family cutUpload: the connection dies after this many bytes of one more payload / frame
+	CutAt int
 	// Tight: maxHttpBufferSize is exactly the largest single request body / frame of the case
 	Tight bool
 }
@@ -144,7 +146,8 @@ func genC02(rt *rapid.T, knownScanner bool, col *Collector) c02Case {
 		c.WTForm = rapid.IntRange(0, 2).Draw(rt, "wtform")
 	}
 	c.Tight = rapid.IntRange(0, 2).Draw(rt, "tightLimit") == 0
-	c.Tail = rapid.SampledFrom([]string{"none", "none", "afterClose", "candidate"}).Draw(rt, "tail")
+	c.Tail = rapid.SampledFrom([]string{"none", "none", "afterClose", "candidate", "cutUpload", "cutUpload"}).Draw(rt, "tail")
+	c.CutAt = rapid.IntRange(1, 60).Draw(rt, "cutAt")
 	if c.Tail == "candidate" && c.Carrier != "polling" {
 		c.Tail = "afterClose"
 	}
@@ -380,6 +383,46 @@ func runC02(c c02Case) (fail string, stats map[string]bool) {
 		if f := verify("after the failed candidate"); f != "" {
 			return f, stats
 		}
+	case "cutUpload":
+		// the connection dies in the middle of one more payload (polling: the upload ends early; websocket /
+		// webtransport: the peer vanishes inside a frame): nothing the client did not submit in full is delivered
+		if closeAt >= 0 || c.Tight {
+			break
+		}
+		more := []Pkt{msgT("complete one"), msgT("the second message of the payload, long enough to be cut in the middle"), msgB([]byte{1, 2, 3, 4, 5, 6, 7, 8})}
+		before := len(sr.Msgs)
+		switch {
+		case s.pc != nil:
+			if c.V3Binary && c.StringLast {
+				more = []Pkt{msgB([]byte{9, 8, 7, 6, 5, 4, 3, 2, 1, 0, 9, 8, 7, 6, 5, 4, 3, 2, 1}), msgB([]byte{1, 2, 3, 4, 5, 6, 7, 8, 1, 2, 3, 4, 5, 6, 7, 8}), msgT("and a string packet at the end")}
+			}
+			body, ct := s.pc.EncodePost(more, c.V3Binary)
+			cut := 1 + c.CutAt%(len(body)-1)
+			s.pc.StartPostRaw(body, ct, func(r *ReqSpec) { r.FailBodyAt = cut })
+			Settle()
+		case s.wc != nil:
+			raw := buildWSFrame(1, true, false, encPacketFrame(c.Rev, c.B64, more[1]).Data, true, [4]byte{1, 2, 3, 4}, 0)
+			cut := 1 + c.CutAt%(len(raw)-1)
+			s.wc.SendRaw(raw[:cut])
+			Settle()
+			s.wc.Drop()
+			Settle()
+		default:
+			raw := wtEncode(false, encPacketFrame(4, c.B64, more[1]).Data)
+			cut := 1 + c.CutAt%(len(raw)-1)
+			s.tc.SendFrameRaw(raw[:cut])
+			Settle()
+			s.tc.Drop()
+			Settle()
+		}
+		stats["connection-died-inside-a-payload"] = true
+		extra := sr.Msgs[before:]
+		if s.pc == nil && len(extra) != 0 {
+			return fmt.Sprintf("the peer vanished inside a frame; the application received %s", pktsString(extra)), stats
+		}
+		if !isPrefix(extra, more) {
+			return fmt.Sprintf("an upload of %s was cut short; the application received %s, which the client never submitted", pktsString(more), pktsString(extra)), stats
+		}
 	case "afterClose":
 		// close the session (client close packet on polling, server-side otherwise), then keep talking
 		stats["traffic-after-close"] = true
@@ -465,6 +508,7 @@ func TestC02Inbound(t *testing.T) {
 		}
 	})
 	req := []string{"carrier.polling.rev4", "carrier.polling.rev3", "carrier.jsonp.rev4", "carrier.jsonp.rev3", "carrier.websocket.rev4", "carrier.websocket.rev3", "carrier.webtransport.rev4", "v3-binary-payload", "multi-packet-payload", "non-ascii-text", "binary", "empty-data", "close-not-last", "post-after-close", "candidate-traffic", "traffic-after-close", "fragmented-frames", "non-minimal-length-form", ">=64KiB", "tight-limit"}
+	req = append(req, "connection-died-inside-a-payload")
 	col.RequireClasses(t, req...)
 }
 
